@@ -92,6 +92,11 @@ def ArrK.merge : ArrK → ArrK → ArrK
   | a, .untyped => a
   | .items f, .items g => .items (f.merge g)
 
+/-- Number of strategies of an items node. -/
+def Flat.count (f : Flat) : Nat :=
+  (if f.null then 1 else 0) + (if f.bool then 1 else 0) + (if f.str then 1 else 0) +
+  (if f.obj then 1 else 0) + (if f.arr then 1 else 0) + (if f.num != .no then 1 else 0)
+
 def Node.any : Node := ⟨false, false, false, false, .no, .no⟩
 def Node.isAny (n : Node) : Bool := n == Node.any
 
@@ -199,7 +204,11 @@ def toPy (n : Node) : Except Err PyT :=
     (match n.arr with
      | .items _ => .error .key
      | _ => .error .type)
-  else if n.arr != .no then .ok .ndarray
+  else if n.arr != .no then
+    -- `__warn_for_array` looks the items type up in a set: a list of types is unhashable
+    (match n.arr with
+     | .items f => if f.count ≥ 2 then .error .type else .ok .ndarray
+     | _ => .ok .ndarray)
   else if n.str then .ok .str
   else if n.num == .int then .ok .int
   else if n.bool then .ok .bool
@@ -684,7 +693,7 @@ inductive Out where
   | snap (s : Snap)
   | simple (g : Grammar)
   | misc (hasNames : Bool) (noNs : List Name) (len : Nat)
-  deriving Repr
+  deriving DecidableEq, Repr
 
 def liftE (w : World) (s : Nat) (r : Except Err Grammar) : World × Out :=
   match r with
